@@ -229,6 +229,7 @@ static inline myth_sleep_queue_item_t myth_sleep_stack_pop(myth_sleep_stack_t * 
   while (1) {
     myth_sleep_queue_item_t x = s->top;
     if (x == 0) return x;
+    MYTH_VERIF_POINT(MVP_SSTACK_POP);
     if (__sync_bool_compare_and_swap(&s->top, x, x->next)) {
       return x;
     }
@@ -239,6 +240,7 @@ static inline long myth_sleep_stack_push(myth_sleep_stack_t * s, myth_sleep_queu
   while (1) {
     myth_sleep_queue_item_t t = s->top;
     x->next = t;
+    MYTH_VERIF_POINT(MVP_SSTACK_PUSH);
     if (__sync_bool_compare_and_swap(&s->top, t, x)) {
       return 0;
     }
